@@ -201,8 +201,12 @@ int __wrap_posix_memalign(void **out, size_t align, size_t n)
 {
     extern int __real_posix_memalign(void **, size_t, size_t);
     if (!monitored()) return __real_posix_memalign(out, align, n);
-    *out = arena_alloc(n, align, 0, AM_MEMALIGN);
-    return *out ? 0 : 12;
+    {   /* on failure glibc leaves *out untouched (POSIX: unspecified): a caller that relies on it being NULL must not be helped */
+        void *q = arena_alloc(n, align, 0, AM_MEMALIGN);
+        if (!q) return 12;
+        *out = q;
+        return 0;
+    }
 }
 void *__wrap_aligned_alloc(size_t align, size_t n)
 {
